@@ -103,7 +103,16 @@ func (s *Service) GetHandler(name string) Handler {
 
 // Handle the reqeust and returns the response.
 func (s *Service) Handle(ctx context.Context, request []byte) ([]byte, error) {
-	response, err := s.ioManager.Handler().(NextIOHandler)(ctx, request)
+	var response []byte
+	var err error
+	func() {
+		defer func() {
+			if p := recover(); p != nil {
+				response, err = nil, NewPanicError(p)
+			}
+		}()
+		response, err = s.ioManager.Handler().(NextIOHandler)(ctx, request)
+	}()
 	if len(response) == 0 {
 		serviceContext := GetServiceContext(ctx)
 		if err == nil {
